@@ -3,7 +3,7 @@ import Cellml.Tie.ConvertCases
 /-! # Tie, Piecewise branch of `convert_expression_recursively`: the `for` loop over ALL `(piece, cond)` pairs (generated)
     = the model's recursion along the chain `ite c t rest` -/
 
-namespace Cellml.Tie
+namespace Cellml.Tie.PConvert
 open Units Infer Convert Cellml.Gen
 
 section
@@ -121,4 +121,4 @@ theorem tie_ite (c t el : E) (tgt : PyUnit) (hch : isChain el = true) :
             simp [rebuild, mkPiecewise, pairOf, hm]
 
 end
-end Cellml.Tie
+end Cellml.Tie.PConvert
